@@ -108,13 +108,15 @@ def overflow_jobs(tier):
     return jobs
 
 
-def overflow_attr(b):
-    tag = b["inst"]["tag"] if b.get("inst") else "?"
-    if tag == "native":
-        return "C12"
-    if b["diag"] in ("ub", "unreachable", "timeout"):
-        return "C07"
-    return "C06"
+def overflow_attr(kind, op, tag, diag):
+    """which properties an event of this kind counts for / a rejection with this diagnosis belongs to"""
+    if tag in ("native", "undefined"):
+        return ["C12"]
+    if diag is None:
+        return ["C06", "C07"]
+    if diag in ("ub", "unreachable", "timeout"):
+        return ["C07"]
+    return ["C06"]
 
 
 # ---------------------------------------------------------------------------------------------
@@ -204,16 +206,14 @@ def scaled_jobs(tier):
     return jobs
 
 
-def scaled_attr(b):
-    k = b["event"].get("e")
-    op = (b.get("inst") or {}).get("op")
-    if k in ("ScBin", "ScIdent") and op in ("div", "mod", "ident"):
-        return "C02"
-    if k in ("ScBin", "ScUn"):
-        return "C01"
-    if k == "ScCmp":
-        return "C03"
-    return "C04"
+def scaled_attr(kind, op, tag, diag):
+    if kind in ("ScBin", "ScIdent") and op in ("div", "mod", "ident"):
+        return ["C02"]
+    if kind in ("ScBin", "ScUn"):
+        return ["C01"]
+    if kind == "ScCmp":
+        return ["C03"]
+    return ["C04"]
 
 
 FAMILIES = {
@@ -318,13 +318,24 @@ def run_check(prop, tier, replay, t0):
     design = []
     for m in chk.get("mcs", []):
         design.append(mc_result(MCS[m], tier))
+    mine = [0, 0, 0, set()]      # this property's share: events, ok, skipped, distinct non-trivial
     for fname in chk["families"]:
         r = family_result(fname, tier)
         total.merge(r)
         attr = FAMILIES[fname]["attr"]
+        for (kind, op, tag), v in r.kinds.items():
+            if prop in attr(kind, op, tag, None):
+                mine[0] += v[0]
+                mine[1] += v[1]
+                mine[2] += v[2]
+                mine[3] |= v[3]
         for b in r.bad:
-            if attr(b) == prop:
+            i = b.get("inst") or {}
+            if prop in attr(i.get("kind", "?"), i.get("op", "?"), i.get("tag", ""), b["diag"]):
                 bads.append(b)
+        total.samples = [x for x in r.samples
+                         if prop in attr((x.get("inst") or {}).get("kind", "?"), (x.get("inst") or {}).get("op", "?"),
+                                         (x.get("inst") or {}).get("tag", ""), None)] + total.samples
     if "extra" in chk:
         chk["extra"](prop, tier, total, bads, design)
     matched, unmatched = vlib.match_known(prop, bads, known)
@@ -350,16 +361,17 @@ def run_check(prop, tier, replay, t0):
     cov = dict(
         states=max(1, total.distinct + ddist), transitions=max(1, total.states + dstates),
         traces_validated_against_impl=total.traces,
-        evaluations=total.events, distinct_nontrivial=len(total.nontrivial), rule=chk["rule"],
+        evaluations=mine[0], distinct_nontrivial=len(mine[3]), rule=chk["rule"],
+        family_events_judged=total.events,
         samples=(total.samples[:5] + [dict(design=d["module"], cfg=d["cfg"]) for d in design[:2]]) or ["none"],
-        judged_ok=total.ok, skipped_out_of_domain=total.skipped, by_diagnosis=total.by_diag,
+        judged_ok=mine[1], skipped_out_of_domain=mine[2], family_by_diagnosis=total.by_diag,
         rejected_for_this_property=len(bads), rejected_matching_known_findings=len(bads) - len(unmatched),
         design_states=dstates, design_runs=design, judge_states=total.states,
         exhaustive=False, recorders=getattr(total, "recorders", []),
         tools=dict(tlc="TLC2 2026.09.04 (tla2tools 1.8.0)", gcc="g++-12", clang="clang++-14"))
     vlib.write_evidence(prop, tier, cov, time.time() - t0, nviol, chk["assumptions"])
-    log("[%s] %s: events=%d nontrivial=%d rejected(here)=%d unlisted=%d wall=%.1fs" % (
-        prop, tier, total.events, len(total.nontrivial), len(bads), len(unmatched), time.time() - t0))
+    log("[%s] %s: events=%d (family %d) nontrivial=%d rejected(here)=%d unlisted=%d wall=%.1fs" % (
+        prop, tier, mine[0], total.events, len(mine[3]), len(bads), len(unmatched), time.time() - t0))
     return rc
 
 
